@@ -1,12 +1,12 @@
-"""C18 — graph memory (API level: Graph / Node / Edge of src/push/graph.rs)."""
+"""C18 — graph memory (API and instruction level: Graph / Node / Edge of src/push/graph.rs)."""
 import itertools, random
 from vcheck import Stream, sx_str
 
 PROPERTY = "C18"
-PROPS_VO = "Props/C18"
+PROPS_VO = ["Props/C18", "Props/C18i"]
 AXIOMS_OK = []
 ASSUMPTIONS = [
-    "API level: histories drive Graph's public methods and read its public fields nodes/edges; the GRAPH.* instruction wrappers are covered by the instruction-level part",
+    "API and instruction level: histories drive Graph's public methods and read its public fields nodes/edges; the GRAPH.* instruction wrappers are covered by the instruction-level part",
     "node ids are process-global counter values: cases name nodes by creation order, results are compared after renaming ids to first-occurrence order; ids 0 and >= 2^40 stand for never-issued ids",
     "HashMap-ordered results (filter, successors, diff entries, final content) are compared sorted by key; Vec-ordered results (incoming edges, predecessors) are compared in order",
     "weights are compared as f32 bit patterns with all NaNs collapsed; 'same weight' in the diff theorem is IEEE == (NaN differs from itself, +0.0 equals -0.0)",
@@ -78,7 +78,7 @@ def rand_history(rng, length, nregs):
     return ops
 
 
-def streams(seed, tier):
+def api_streams(seed, tier):
     rng = random.Random(seed)
     out = []
     profs = [0, 1]
@@ -101,11 +101,17 @@ def streams(seed, tier):
     return out
 
 
-TECHNIQUE = "Coq invariant + refinement proof (HashMap/Vec model of Graph refines a set-based graph, induction over operation histories) + exhaustive/random differential correspondence against pushr::push::graph::Graph (API level)"
+TECHNIQUE = "Coq invariant + refinement proof (HashMap/Vec model of Graph refines a set-based graph, induction over operation histories) + exhaustive/random differential correspondence against pushr::push::graph::Graph (API and instruction level)"
 DESIGN_REF = "DESIGN.md section 6.C18"
-LEVEL_TEXT = ("API level. Machine-checked theorems over the Gallina model of Graph/Node/Edge (nodes and incoming-edge lists as key-sorted association lists, the global node counter explicit): "
+LEVEL_TEXT = ("API and instruction level. Machine-checked theorems over the Gallina model of Graph/Node/Edge (nodes and incoming-edge lists as key-sorted association lists, the global node counter explicit): "
               "C18_graph_inv (after every history from empty graphs every edge joins two existing nodes, no destination list holds two edges from one origin, no duplicate node or destination keys), "
               "C18_graph_refines_spec (counts, states, weights, filter / predecessor / successor / neighbour results equal those of a set-based graph along every history), "
               "C18_clone_is_snapshot, C18_diff_empty_iff_same (diff is None exactly when nodes, states, edges agree and weights are IEEE-== equal; a NaN weight differs from itself), C18_pred_succ_neighbour_sets. "
-              "The model is tied to the code by running all short histories and long random histories on the real Graph and on the extracted model, and by evaluating the set-based specification and the invariant on the implementation's own outputs and final contents.")
-LEVEL_NOTE = "API level only in this part. Trusted: Coq kernel, extraction (ExtrOcamlBasic), ocaml/driver.ml, the Rust harness (incl. its strict parser of the diff text and the id renaming) and generators; Flocq's binary32 comparison instantiates f32 `==` in the extracted model only (theorems are parametric in FloatOps and closed under the global context). Behaviour outside the generated histories is tied only by the proof-to-model link."
+              "The model is tied to the code by running all short histories and long random histories on the real Graph and on the extracted model, and by evaluating the set-based specification and the invariant on the implementation's own outputs and final contents."
+              " Instruction level (Props/C18i.v): GRAPH.DUP snapshots are never altered by later GRAPH.* programs, the HISTORY instructions read exactly the k-th newest snapshot, stale / negative / huge ids only consume operands, every GRAPH.* name applies the corresponding API function with the documented operand order, and the structural invariant is preserved by every instruction and every GRAPH.* program; tied by single-step, program and DUP-depth (up to 101) streams on the real interpreter, HashMap-ordered results compared as sets.")
+LEVEL_NOTE = "API and instruction level only in this part. Trusted: Coq kernel, extraction (ExtrOcamlBasic), ocaml/driver.ml, the Rust harness (incl. its strict parser of the diff text and the id renaming) and generators; Flocq's binary32 comparison instantiates f32 `==` in the extracted model only (theorems are parametric in FloatOps and closed under the global context). Behaviour outside the generated histories is tied only by the proof-to-model link."
+
+
+def streams(seed, tier):
+    from checks import C18i_streams as C18i
+    return api_streams(seed, tier) + C18i.streams(seed, tier)
